@@ -123,6 +123,25 @@ def read_attr_tables(repo: Path | None = None):
             "prop_conds": conds["da_props"], "method_conds": conds["da_methods"], "props": props, "methods": methods}
 
 
+def read_namespace():
+    """sorted public names of jax.numpy (sub-modules linalg / fft as dotted names), read from jax itself"""
+    import types
+
+    import jax.numpy as jnp
+
+    out = []
+    for n in dir(jnp):
+        if n[0] == "_":
+            continue
+        v = getattr(jnp, n)
+        if isinstance(v, types.ModuleType):
+            if n in ("linalg", "fft"):
+                out += [f"{n}.{m}" for m in dir(v) if m[0] != "_" and not isinstance(getattr(v, m), types.ModuleType)]
+            continue
+        out.append(n)
+    return sorted(out)
+
+
 def _lean_str(s: str) -> str:
     return '"' + s.replace("\\", "\\\\").replace('"', '\\"') + '"'
 
@@ -158,7 +177,19 @@ def render_attrs(a) -> str:
     ])
 
 
-def render(t, attrs=None) -> str:
+def render_namespace(names) -> str:
+    return "\n".join([
+        "/-- sorted public names of `jax.numpy` (with `linalg.*`, `fft.*`), read from jax -/",
+        f"def jnpNames : List String :=\n  {_lean_list(names)}",
+        "",
+        "/-- every name of the namespace is wrapped by one of the lists or is in the pinned pass-through list; the wrapped",
+        "    names exist (meaning: `Scico.Block.Lists.checkNamespace_sound`) -/",
+        "theorem namespace_ok : checkNamespace tables jnpNames = true := by decide +kernel",
+        "",
+    ])
+
+
+def render(t, attrs=None, names=None) -> str:
     camel = {
         "unary_ops": "unaryOps",
         "binary_ops": "binaryOps",
@@ -191,7 +222,12 @@ def render(t, attrs=None) -> str:
         "/-- the structural obligations on the current tables (meaning: `Scico.Block.Lists.check_sound`) -/",
         "theorem tables_ok : check tables = true := by decide",
         "",
+        "/-- every operator method is lifted or is one of the pinned non-lifted ones; no in-place operator is defined;",
+        "    lifted binary operators come with their reflected form (meaning: `Scico.Block.Lists.checkOperators_sound`) -/",
+        "theorem operators_ok : checkOperators tables = true := by decide +kernel",
+        "",
         render_attrs(attrs) if attrs is not None else "",
+        render_namespace(names) if names is not None else "",
         "end Scico.Generated.WrappedNames",
         "",
     ]
@@ -202,7 +238,9 @@ def generate(repo: Path | None = None):
     t = read_tables(repo)
     attrs = read_attr_tables(repo)
     t["lifted_props"], t["lifted_methods"] = attrs["props"], attrs["methods"]
-    txt = render(t, attrs)
+    names = read_namespace()
+    t["jnp_names"] = names
+    txt = render(t, attrs, names)
     OUT.parent.mkdir(parents=True, exist_ok=True)
     if not OUT.exists() or OUT.read_text() != txt:
         OUT.write_text(txt)
